@@ -15,7 +15,7 @@ HERE = os.path.dirname(os.path.dirname(os.path.abspath(__file__)))
 if HERE not in sys.path:
     sys.path.insert(0, HERE)
 
-SPEC_MODULES = ['spec.calendar', 'spec.strings', 'spec.css_sem']
+SPEC_MODULES = ['spec.calendar', 'spec.strings', 'spec.css_sem', 'spec.parser_sem']
 CONTRACT_MODULES = ['contracts.inputs', 'contracts.strings', 'contracts.nav', 'contracts.match', 'contracts.lemmas', 'contracts.parser', 'contracts.util']
 VOCAB_MODULES = ['pyvc.rx_rules', 'pyvc.prims_sym', 'pyvc.tree']
 
